@@ -21,6 +21,9 @@ var checks = map[string]func(*core.Ctx) int{
 	"C11": core.CheckC11,
 	"C12": core.CheckC12,
 	"C13": core.CheckC13,
+	"C14": core.CheckC14,
+	"C15": core.CheckC15,
+	"C18": core.CheckC18,
 	"C19": core.CheckC19,
 }
 
